@@ -31,15 +31,27 @@ DEAD_PARAM_EXCEPTIONS = {
     ("IdentityLinearOperator", "_cholesky_solve", "upper"): "a diagonal factor is its own transpose",
     ("IdentityLinearOperator", "_symeig", "eigenvectors"): "returns the superset (values and vectors)",
 }
-# return sites of the cholesky family whose label may differ from the request: (function, construct) -> reason
-ORIENT_RETURN_EXCEPTIONS = {
-    ("LinearOperator._cholesky", "return TriangularLinearOperator(evaluated_mat.clamp_min(0.0).sqrt())"):
-        "guarded by `evaluated_mat.size(-1) == 1`: a 1x1 factor is diagonal, its label is immaterial",
-}
-
-
 def fname(fn: FunctionInfo) -> str:
-    return f"{fn.cls.name}.{fn.name}" if fn.cls else fn.qualname.replace("linear_operator.", "", 1)
+    return f"{fn.cls.name}.{fn.name}" if fn.cls is not None else fn.qualname.replace("linear_operator.", "", 1)
+
+
+def _one_by_one_guard(fn: FunctionInfo, ret: ast.AST) -> Optional[str]:
+    """The test `<x>.size(-1) == 1` / `<x>.shape[-1] == 1` on whose TRUE branch the return sits (a 1x1 matrix is its own
+    transpose, so the orientation label of a 1x1 factor cannot matter)."""
+    import re as _re
+
+    from ..cfg import CFG
+
+    cfg = CFG(fn)
+    nd = cfg.node_of(ret)
+    if nd is None:
+        return None
+    for d in cfg.dominators(nd.id):
+        dn = cfg.nodes[d]
+        if dn.kind == "test" and cfg.branch_taken(d, nd.id) is True and _re.fullmatch(
+                r"[\w\.]+\.(size\(-1\)|shape\[-1\]|size\(-2\)|shape\[-2\]) == 1", norm(dn.ast)):
+            return norm(dn.ast)
+    return None
 
 
 def rule_orientation(idx: ProgramIndex, rep: Report):
@@ -70,9 +82,9 @@ def rule_orientation(idx: ProgramIndex, rep: Report):
             elif tag == D or tag == want:
                 rep.ok("C06.R", sample)
             else:
-                exc = ORIENT_RETURN_EXCEPTIONS.get((fname(fn), norm(node)))
-                if exc:
-                    rep.ok("C06.R", {**sample, "exception": exc})
+                guard = _one_by_one_guard(fn, node)
+                if guard:
+                    rep.ok("C06.R", {**sample, "exception": f"guarded by `{guard}`: a 1x1 factor is diagonal, its label is immaterial"})
                     continue
                 rep.bad("C06.R", Finding(
                     PROP, "C06.R", fname(fn), f"[upper={sigma.get('upper')}] {norm(node)}",
